@@ -128,6 +128,13 @@ def cycle_labels(view):
 
 def check_shape(ck, view, cyc, inst):
     labels, pvar, problems = cycle_labels(view)
+    for b in view.cfg.blocks.values():
+        for e in b["el"]:
+            ev = classify(view, e)
+            if ev and ev["kind"] == "unknown":
+                problems.append("%s (line %s): helper calls may be hidden in it" % (ev["why"], ev["n"].get("l")))
+    if any(n.get("k") == "Lambda" for n in walk(view.fn.body)):
+        problems.append("lambda inside the cycle function")
     for p in problems:
         ck.incomplete("E14.cycle-shape", "%s: %s" % (inst, p))
     if problems:
@@ -172,15 +179,28 @@ def loop_of(view, sids):
 
 
 def for_shape(view, loop):
-    """(var decl, init node, (op, bound node), step) of a counting for loop; None where not of that form"""
-    if loop is None or loop.get("k") != "For":
+    """(var decl, init node, (op, bound node), step) of a counting loop; None where not of that form.
+    Accepts `for(T v = init; v op bound; step)`, the same with the step as first or last statement of the body,
+    and `T v = init; while(v op bound) { [step;] ... [step;] }`.  step = (+-k, 'inc' | 'body', node):
+    'inc' = executed after the body (for-increment or last body statement), 'body' = first statement of the body."""
+    if loop is None or loop.get("k") not in ("For", "While"):
         return None
-    init = loop.get("init")
-    if not init or init.get("k") != "Decl" or len(init.get("vars", [])) != 1:
-        return None
-    var = init["vars"][0]
-    d = var["d"]
     c = strip(loop.get("c") or {})
+    var = None
+    if loop["k"] == "For":
+        init = loop.get("init")
+        if init is not None and init.get("k") == "Decl" and len(init.get("vars", [])) == 1:
+            var = init["vars"][0]
+    if var is None:
+        # variable of the condition, declared (with initialiser) outside the loop
+        if c.get("k") == "Bin" and c.get("op") in FLIP:
+            for side in (strip(c["lhs"]), strip(c["rhs"])):
+                if side.get("k") == "Ref" and side.get("dk") == "local" and len(view.writes.get(side["d"], [])) == 1 and side["d"] in view.locals:
+                    var = view.locals[side["d"]]
+                    break
+        if var is None or (loop["k"] == "For" and loop.get("init") is not None):
+            return None
+    d = var["d"]
     cond = None
     if c.get("k") == "Bin" and c.get("op") in FLIP:
         l, r = strip(c["lhs"]), strip(c["rhs"])
@@ -189,14 +209,29 @@ def for_shape(view, loop):
         elif r.get("k") == "Ref" and r.get("d") == d:
             cond = (FLIP[c["op"]], l)
     inc = loop.get("inc")
+    body = loop.get("body") or {}
+    stmts = body.get("s", []) if body.get("k") == "Block" else [body]
     step = None
     writes = view.writes.get(d, [])
     if len(writes) == 1:
         w = writes[0]
+        k = None
         if w.get("k") == "Un":
-            step = (+1 if w["op"] == "++" else -1, "inc" if inc is not None and w["i"] in {x.get("i") for x in walk(inc)} else "body", w)
+            k = +1 if w["op"] == "++" else -1
         elif w.get("k") == "Assign" and w.get("op") in ("+=", "-=") and strip(w["rhs"]).get("k") == "Int":
-            step = (int(strip(w["rhs"])["v"]) * (1 if w["op"] == "+=" else -1), "inc" if inc is not None and w["i"] in {x.get("i") for x in walk(inc)} else "body", w)
+            k = int(strip(w["rhs"])["v"]) * (1 if w["op"] == "+=" else -1)
+        if k is not None:
+            where = None
+            if inc is not None and w["i"] in {x.get("i") for x in walk(inc)}:
+                where = "inc"
+            elif stmts and strip(stmts[0]).get("i") == w.get("i"):
+                where = "body"
+            elif stmts and strip(stmts[-1]).get("i") == w.get("i") and not any(x.get("k") == "Continue" for x in walk(body)):
+                where = "inc"
+            elif w["i"] in {x.get("i") for x in walk(body)}:
+                where = "mid"
+            if where in ("inc", "body", "mid"):
+                step = (k, where, w)      # 'mid': somewhere inside the body; callers decide whether that is acceptable
     return {"d": d, "var": var, "init": var.get("init"), "cond": cond, "step": step}
 
 
@@ -205,8 +240,8 @@ def check_level_loop(ck, view, inst, event_ids, want_init, want_op, want_bound, 
     rule = "E14.level-range"
     loop = loop_of(view, event_ids)
     sh = for_shape(view, loop)
-    if sh is None or sh["cond"] is None or sh["step"] is None or sh["init"] is None:
-        ck.incomplete(rule, "%s: the level loop is not a counting for-loop with one induction variable (found %s)" % (inst, render(loop) if loop else "no loop"))
+    if sh is None or sh["cond"] is None or sh["step"] is None or sh["init"] is None or (sh["step"][1] == "mid" and want_step > 0):
+        ck.incomplete(rule, "%s: the level loop is not a counting loop with one induction variable (found %s)" % (inst, render(loop) if loop else "no loop"))
         return None
     nm = sh["var"]["n"]
     init = view.level(sh["init"])
@@ -335,7 +370,7 @@ def index_interval(view, sub, idx):
     """symbolic interval [lo, hi] (Lin) of the values the subscript expression idx can take at site sub,
     the guaranteed gap last - top >= gap at that site, and a description; raises NotImplementedError(text)"""
     loops = enclosing(view, sub, ("For", "While", "Do"))
-    gap = 1 if any(l.get("k") == "For" and is_w_count_loop(view, l) for l in loops) else 0
+    gap = 1 if any(is_w_count_loop(view, l) for l in loops) else 0
     e = strip(idx)
     pre_dec = False
     if e.get("k") == "Un" and e.get("op") == "--" and not e.get("post"):
@@ -347,10 +382,8 @@ def index_interval(view, sub, idx):
     nm = e.get("n")
     # (1) induction variable of an enclosing counting for-loop
     for l in loops:
-        if l.get("k") != "For":
-            continue
         sh = for_shape(view, l)
-        if sh is None or sh["d"] != d:
+        if sh is None or sh["d"] != d or sh["step"] is None or sh["step"][1] == "mid":
             continue
         if pre_dec or sh["cond"] is None or sh["step"] is None or sh["init"] is None:
             raise NotImplementedError("loop over %s is not a counting loop" % nm)
@@ -416,6 +449,12 @@ def check_w_counters(ck, view, inst, inner_event_ids):
     if not subs:
         ck.incomplete(rule, "%s: no subscript of _counters found" % inst)
         return
+    sub_bases = {id(strip(n["a"][0])) for n in subs}
+    for n in walk(view.fn.body):
+        if mgmodel.is_this_member(n, "_counters") and id(strip(n)) not in sub_bases and id(n) not in sub_bases:
+            par = view.parent.get(n.get("i"))
+            ck.incomplete(rule, "%s: _counters is used other than by subscripting (%s, line %s): fill/assign/iterator idioms are not modelled" % (inst, render(par)[:60] if par else "?", n.get("l")))
+            return
     wloop = loop_of(view, inner_event_ids)
     wids = {x.get("i") for x in walk(wloop)} if wloop is not None else set()
     first_inner = min(inner_event_ids, key=lambda e: (view.byid[e].get("l") or 0)) if inner_event_ids else None
@@ -440,6 +479,25 @@ def check_w_counters(ck, view, inst, inner_event_ids):
     entry = [s for s in sites if s["kind"] == "zero" and not s["inw"] and first_inner is not None
              and first_inner in view.flow_from(s["n"]["i"])[0] and s["n"]["i"] not in view.flow_from(first_inner)[0]]
     uses = [s for s in sites if s not in entry]
+    # adjacent / overlapping reset loops are merged into one interval
+    merged = [dict(e) for e in entry]
+    changed = True
+    while changed and len(merged) > 1:
+        changed = False
+        for a in merged:
+            for b2 in merged:
+                if a is b2:
+                    continue
+                g = min(a["gap"], b2["gap"])
+                if (b2["lo"] - a["lo"]).nonneg(g) and (a["hi"].shift(1) - b2["lo"]).nonneg(g):
+                    a["hi"] = b2["hi"] if (b2["hi"] - a["hi"]).nonneg(g) else a["hi"]
+                    a["gap"] = g
+                    merged.remove(b2)
+                    changed = True
+                    break
+            if changed:
+                break
+    cover = merged
     if not entry:
         ck.ob(rule, "%s/entry-reset" % inst, False, "no loop zeroes _counters before the W-cycle iterations (documented: at the beginning of each W-cycle all peak counters are reset to 0)",
               view.fn.file, view.fn.line)
@@ -456,9 +514,9 @@ def check_w_counters(ck, view, inst, inner_event_ids):
         if not (s["lo"] - TOP).nonneg(s["gap"]) or not (LAST - s["hi"]).nonneg(s["gap"]):
             problems.append("index range [%s, %s] is not within the absolute level range [top, last] of this multigrid" % (s["lo"], s["hi"]))
         if entry:
-            cov = [e for e in entry if (s["lo"] - e["lo"]).nonneg(s["gap"]) and (e["hi"] - s["hi"]).nonneg(s["gap"])]
+            cov = [e for e in cover if (s["lo"] - e["lo"]).nonneg(s["gap"]) and (e["hi"] - s["hi"]).nonneg(s["gap"])]
             if not cov:
-                e = entry[0]
+                e = cover[0]
                 why = []
                 if not (s["lo"] - e["lo"]).nonneg(s["gap"]):
                     why.append("starts at %s > %s" % (e["lo"], s["lo"]))
@@ -575,6 +633,10 @@ def check_roles(ck, view, inst_prefix, events):
             ck.incomplete("E1.level-roles", "%s: %s at line %s is outside the operation table" % (inst_prefix, ev["why"], ev["n"].get("l")))
             continue
         ok, desc, exp = role_check(view, ev)
+        unresolved = [k for k in ("cor", "def", "r", "x", "y", "vec", "fine", "coarse", "dst", "src", "a", "b") if k in ev and ev[k] is None]
+        if ok is False and unresolved:
+            ck.incomplete("E1.level-roles", "%s: %s: operand(s) %s could not be resolved to a level vector or parameter (line %s)" % (inst_prefix, desc, ", ".join(unresolved), ev["n"].get("l")))
+            continue
         if ok is None:
             ck.incomplete("E1.level-roles", "%s: %s: %s" % (inst_prefix, desc, exp))
             continue
@@ -605,11 +667,28 @@ def check_apply(ck, view, inst):
         while p is not None and p.get("k") != "Switch":
             p = view.parent.get(p.get("i"))
         sw = p
-        if case is None or case.get("k") != "Case" or sw is None or not mgmodel.is_this_member(sw.get("c"), "_cycle"):
-            ck.incomplete("E13.cycle-dispatch", "%s: call of %s is not directly under a case label of switch(_cycle)" % (inst, ev["helper"]))
+        got = None
+        if case is not None and case.get("k") == "Case" and sw is not None and mgmodel.is_this_member(view.value(sw.get("c")), "_cycle"):
+            cv = strip(case.get("v") or {})
+            got = cv.get("qn", cv.get("n", "?")).rsplit("::", 1)[-1]
+        else:
+            # if / else-if chain: the call sits in the then-branch of `_cycle == MultiGridCycle::X`
+            q = view.parent.get(ev["n"]["i"])
+            child = ev["n"]
+            while q is not None and got is None:
+                if q.get("k") == "If" and q.get("then") is not None and child.get("i") in {x.get("i") for x in walk(q["then"])}:
+                    c = strip(q.get("c") or {})
+                    if c.get("k") == "Bin" and c.get("op") == "==":
+                        for x, y in ((c["lhs"], c["rhs"]), (c["rhs"], c["lhs"])):
+                            yv = view.value(y)
+                            if mgmodel.is_this_member(view.value(x), "_cycle") and yv.get("k") == "Ref" and yv.get("dk") == "enum":
+                                got = yv.get("qn", yv.get("n", "?")).rsplit("::", 1)[-1]
+                    if got is None:
+                        break
+                child, q = q, view.parent.get(q.get("i"))
+        if got is None:
+            ck.incomplete("E13.cycle-dispatch", "%s: call of %s is neither under a case label of switch(_cycle) nor in the then-branch of `_cycle == MultiGridCycle::X`" % (inst, ev["helper"]))
             continue
-        cv = strip(case.get("v") or {})
-        got = cv.get("qn", cv.get("n", "?")).rsplit("::", 1)[-1]
         others = [x for x, y in cyc_calls if x != e and view.pos(x)[0] == b]
         ck.ob("E13.cycle-dispatch", "%s/case %s" % (inst, got), got == want and not others,
               "case MultiGridCycle::%s calls %s" % (got, ev["helper"]), view.fn.file, ev["n"].get("l"))
@@ -618,6 +697,28 @@ def check_apply(ck, view, inst):
     cor_out = [e for e, ev in evs if ev["kind"] == "copy" and ev["dst"] == ("param", "vec_cor") and vec(ev["src"], "sol") and ev["src"][1] == ("top", 0)]
     if not cyc_calls:
         ck.incomplete("E7.hand-over", "%s: no cycle call found in apply()" % inst)
+        return evs
+    unknown = [ev for e, ev in evs if ev["kind"] == "unknown"]
+    for ev in unknown:
+        ck.incomplete("E7.hand-over", "%s: %s (line %s)" % (inst, ev["why"], ev["n"].get("l")))
+    # a hand-over that is not the modelled copy(): the parameter used in some other call
+    def other_uses(pname, modelled):
+        out = []
+        for e2 in [e for b in view.cfg.blocks.values() for e in b["el"]]:
+            n2 = view.byid.get(e2)
+            if n2 is None or e2 in modelled or not featlib.is_call(n2):
+                continue
+            direct = [n2.get("obj")] + list(n2.get("a", []))
+            if any(x is not None and strip(x).get("k") == "Ref" and strip(x).get("n") == pname for x in direct):
+                out.append(n2)
+        return out
+    if not rhs_in and other_uses("vec_def", set()):
+        ck.incomplete("E7.hand-over", "%s: vec_def is not copied by lvl_top.vec_rhs.copy(vec_def) but used in %s" % (inst, render(other_uses("vec_def", set())[0])[:80]))
+        return evs
+    if not cor_out and other_uses("vec_cor", set()):
+        ck.incomplete("E7.hand-over", "%s: vec_cor is not defined by vec_cor.copy(lvl_top.vec_sol) but used in %s" % (inst, render(other_uses("vec_cor", set())[0])[:80]))
+        return evs
+    if unknown:
         return evs
     # (a) every path from entry to a cycle call passes rhs@top.copy(vec_def)
     reach, _ = view.flow_from(None, stop=set(rhs_in))
@@ -688,6 +789,16 @@ def check_peak_fallback(ck, view, inst):
         return None
 
     limit = [0]
+    unmodelled = []
+    for b0 in cfg.blocks.values():
+        for e in b0["el"]:
+            ev = classify(view, e)
+            if ev and ev["kind"] == "unknown":
+                unmodelled.append(ev["why"])
+    if unmodelled:
+        ck.incomplete(rule, "%s: %s" % (inst, unmodelled[0]))
+        return
+    other_atoms = []
 
     def go(b, seq, known, failed, visited):
         limit[0] += 1
@@ -708,6 +819,8 @@ def check_peak_fallback(ck, view, inst):
         if atom is not None and len(succ) == 2:
             na = nonnull_atom(atom)
             ca = call_atom(atom)
+            if na is None and ca is None:
+                other_atoms.append(render(atom))
             for idx, s in enumerate(succ):
                 if s is None:
                     continue
@@ -771,6 +884,10 @@ def check_peak_fallback(ck, view, inst):
         prev = combos.get(key)
         combos[key] = (bad if (prev is None or prev[0] is None) else prev[0], kinds)
     for key, (bad, kinds) in sorted(combos.items()):
+        if bad is not None and (other_atoms or "not a smoother of the level" in bad) and ("never tests" in bad or "did not establish" in bad or "never considered" in bad or "not a smoother of the level" in bad):
+            # the presence test / smoother may be expressed by a condition or expression outside the table
+            ck.incomplete(rule, "%s: %s; branch conditions outside the table: %s" % (key, bad, ", ".join(sorted(set(other_atoms))[:3]) or "-"))
+            continue
         ck.ob(rule, key, bad is None, bad or "smoothers applied: %s" % (kinds or "none"), view.fn.file, view.fn.line)
 
 
@@ -894,7 +1011,7 @@ def run(tier):
                     caps = [v.decl_stmt[d] for d, var in v.locals.items() if var.get("init") is not None and d in v.decl_stmt
                             and any(x.get("k") == "Ref" and x.get("d") == sh["d"] for x in walk(var["init"]))]
                     late = [e for e in lev + caps if not v.cfg.stmt_dominates(w["i"], e)]
-                    if sh["step"][1] != "body" or late:
+                    if sh["step"][1] == "inc" or late:
                         ck.ob("E14.level-range", "%s::%s/decrement-first" % (sc, fnm), False,
                               "the level index is not decremented before the level objects of the iteration are used (line %s)" % (v.byid[late[0]].get("l") if late else w.get("l")), v.fn.file, w.get("l"))
         # 2. apply(): dispatch, hand-over
